@@ -27,6 +27,9 @@ pub struct Flow {
     /// B starts receiving only after A has enqueued all its chunks (a lagging
     /// consumer: fills the 100-slot agent queue and everything behind it)
     pub lag_receiver: bool,
+    /// side B does not subscribe to this protocol at all: what A sends on it has
+    /// no receiver and must vanish without reaching anybody else
+    pub b_absent: bool,
 }
 
 #[derive(Clone, Debug)]
@@ -118,6 +121,12 @@ pub fn build(sc: &Scenario) -> (Tasks, Rc<RefCell<Obs>>) {
     #[allow(clippy::type_complexity)]
     let mut agents: Vec<(String, AgentChannel, Vec<Vec<u8>>, usize, usize, bool, Option<tokio::sync::oneshot::Sender<()>>, Option<tokio::sync::oneshot::Receiver<()>>)> = vec![];
     for (i, f) in sc.flows.iter().enumerate() {
+        if f.b_absent {
+            // only side A has an agent on this protocol; receiver ids stay aligned
+            let cha = if f.a_is_client { plex_a.subscribe_client(f.proto) } else { plex_a.subscribe_server(f.proto) };
+            agents.push((format!("A{i}"), cha, f.a_to_b.clone(), 0, 2 * i, true, None, None));
+            continue;
+        }
         let (cha, chb) = if f.a_is_client {
             (plex_a.subscribe_client(f.proto), plex_b.subscribe_server(f.proto))
         } else {
@@ -133,7 +142,7 @@ pub fn build(sc: &Scenario) -> (Tasks, Rc<RefCell<Obs>>) {
         agents.push((format!("A{i}"), cha, f.a_to_b.clone(), f.b_to_a.len(), 2 * i, true, tx, None));
         agents.push((format!("B{i}"), chb, f.b_to_a.clone(), f.a_to_b.len(), 2 * i + 1, f.a_to_b.is_empty(), None, rx));
     }
-    obs.borrow_mut().received = vec![vec![]; agents.len()];
+    obs.borrow_mut().received = vec![vec![]; 2 * sc.flows.len()];
     let (mut da, mut ma) = plex_a.into_parts();
     let (mut db, mut mb) = plex_b.into_parts();
     // the real loops
@@ -172,7 +181,8 @@ pub fn expected(sc: &Scenario) -> Vec<Vec<Vec<u8>>> {
     let mut v = vec![];
     for f in &sc.flows {
         v.push(f.b_to_a.clone()); // A side receives what B sent
-        v.push(f.a_to_b.clone());
+        // nobody listens on B for an absent subscription: nothing may be recorded
+        v.push(if f.b_absent { vec![] } else { f.a_to_b.clone() });
     }
     v
 }
@@ -186,8 +196,8 @@ pub fn scenarios(thorough: bool) -> Vec<Scenario> {
             name: "S1-two-protocols-one-direction",
             pipe,
             flows: vec![
-                Flow { proto: 2, a_is_client: true, a_to_b: vec![chunk(0, 0, 0, 7), chunk(0, 0, 1, 0)], b_to_a: vec![], lag_receiver: false },
-                Flow { proto: 3, a_is_client: true, a_to_b: vec![chunk(1, 0, 0, 9)], b_to_a: vec![], lag_receiver: false },
+                Flow { proto: 2, a_is_client: true, a_to_b: vec![chunk(0, 0, 0, 7), chunk(0, 0, 1, 0)], b_to_a: vec![], lag_receiver: false, b_absent: false },
+                Flow { proto: 3, a_is_client: true, a_to_b: vec![chunk(1, 0, 0, 9)], b_to_a: vec![], lag_receiver: false, b_absent: false },
             ],
         });
         // S2: both directions on one protocol, plus a second protocol the other way
@@ -195,8 +205,8 @@ pub fn scenarios(thorough: bool) -> Vec<Scenario> {
             name: "S2-both-directions",
             pipe,
             flows: vec![
-                Flow { proto: 2, a_is_client: true, a_to_b: vec![chunk(0, 0, 0, 8), chunk(0, 0, 1, 1)], b_to_a: vec![chunk(0, 1, 0, 2)], lag_receiver: false },
-                Flow { proto: 5, a_is_client: false, a_to_b: vec![], b_to_a: vec![chunk(1, 1, 0, 9)], lag_receiver: false },
+                Flow { proto: 2, a_is_client: true, a_to_b: vec![chunk(0, 0, 0, 8), chunk(0, 0, 1, 1)], b_to_a: vec![chunk(0, 1, 0, 2)], lag_receiver: false, b_absent: false },
+                Flow { proto: 5, a_is_client: false, a_to_b: vec![], b_to_a: vec![chunk(1, 1, 0, 9)], lag_receiver: false, b_absent: false },
             ],
         });
         // S3: the SAME protocol number as client and as server on both sides
@@ -204,8 +214,8 @@ pub fn scenarios(thorough: bool) -> Vec<Scenario> {
             name: "S3-same-protocol-both-roles",
             pipe,
             flows: vec![
-                Flow { proto: 7, a_is_client: true, a_to_b: vec![chunk(0, 0, 0, 3), chunk(0, 0, 1, 8)], b_to_a: vec![], lag_receiver: false },
-                Flow { proto: 7, a_is_client: false, a_to_b: vec![chunk(1, 0, 0, 3)], b_to_a: vec![], lag_receiver: false },
+                Flow { proto: 7, a_is_client: true, a_to_b: vec![chunk(0, 0, 0, 3), chunk(0, 0, 1, 8)], b_to_a: vec![], lag_receiver: false, b_absent: false },
+                Flow { proto: 7, a_is_client: false, a_to_b: vec![chunk(1, 0, 0, 3)], b_to_a: vec![], lag_receiver: false, b_absent: false },
             ],
         });
     }
@@ -214,18 +224,31 @@ pub fn scenarios(thorough: bool) -> Vec<Scenario> {
         name: "S4-max-size-chunk",
         pipe: 4096,
         flows: vec![
-            Flow { proto: 2, a_is_client: true, a_to_b: vec![chunk(0, 0, 0, 65535), chunk(0, 0, 1, 2)], b_to_a: vec![], lag_receiver: false },
-            Flow { proto: 3, a_is_client: true, a_to_b: vec![chunk(1, 0, 0, 5)], b_to_a: vec![chunk(1, 1, 0, 4)], lag_receiver: false },
+            Flow { proto: 2, a_is_client: true, a_to_b: vec![chunk(0, 0, 0, 65535), chunk(0, 0, 1, 2)], b_to_a: vec![], lag_receiver: false, b_absent: false },
+            Flow { proto: 3, a_is_client: true, a_to_b: vec![chunk(1, 0, 0, 5)], b_to_a: vec![chunk(1, 1, 0, 4)], lag_receiver: false, b_absent: false },
         ],
     });
+    // S7: traffic for a protocol the peer never subscribed to (and for the same
+    // protocol number in the other role) next to ordinary flows: it must reach nobody
+    for &pipe in &[8usize, 4096] {
+        v.push(Scenario {
+            name: "S7-unsubscribed-protocol",
+            pipe,
+            flows: vec![
+                Flow { proto: 2, a_is_client: true, a_to_b: vec![chunk(0, 0, 0, 3), chunk(0, 0, 1, 9)], b_to_a: vec![chunk(0, 1, 0, 2)], lag_receiver: false, b_absent: false },
+                Flow { proto: 9, a_is_client: true, a_to_b: vec![chunk(1, 0, 0, 8), chunk(1, 0, 1, 1)], b_to_a: vec![], lag_receiver: false, b_absent: true },
+                Flow { proto: 2, a_is_client: false, a_to_b: vec![chunk(2, 0, 0, 4)], b_to_a: vec![], lag_receiver: false, b_absent: true },
+            ],
+        });
+    }
     // S6: a consumer that lags behind by more than the 100-slot agent queue (the
     // demuxer has to hold back), next to a small flow on another protocol
     v.push(Scenario {
         name: "S6-lagging-consumer-over-queue-capacity",
         pipe: 4096,
         flows: vec![
-            Flow { proto: 2, a_is_client: true, a_to_b: (0..104u8).map(|i| chunk(0, 0, i, 2)).collect(), b_to_a: vec![], lag_receiver: true },
-            Flow { proto: 3, a_is_client: true, a_to_b: vec![chunk(1, 0, 0, 5)], b_to_a: vec![chunk(1, 1, 0, 4)], lag_receiver: false },
+            Flow { proto: 2, a_is_client: true, a_to_b: (0..104u8).map(|i| chunk(0, 0, i, 2)).collect(), b_to_a: vec![], lag_receiver: true, b_absent: false },
+            Flow { proto: 3, a_is_client: true, a_to_b: vec![chunk(1, 0, 0, 5)], b_to_a: vec![chunk(1, 1, 0, 4)], lag_receiver: false, b_absent: false },
         ],
     });
     if thorough {
@@ -234,9 +257,9 @@ pub fn scenarios(thorough: bool) -> Vec<Scenario> {
             name: "S5-six-agents",
             pipe: 8,
             flows: vec![
-                Flow { proto: 2, a_is_client: true, a_to_b: vec![chunk(0, 0, 0, 2), chunk(0, 0, 1, 9)], b_to_a: vec![], lag_receiver: false },
-                Flow { proto: 3, a_is_client: false, a_to_b: vec![], b_to_a: vec![chunk(1, 1, 0, 8), chunk(1, 1, 1, 0)], lag_receiver: false },
-                Flow { proto: 2, a_is_client: false, a_to_b: vec![chunk(2, 0, 0, 7)], b_to_a: vec![], lag_receiver: false },
+                Flow { proto: 2, a_is_client: true, a_to_b: vec![chunk(0, 0, 0, 2), chunk(0, 0, 1, 9)], b_to_a: vec![], lag_receiver: false, b_absent: false },
+                Flow { proto: 3, a_is_client: false, a_to_b: vec![], b_to_a: vec![chunk(1, 1, 0, 8), chunk(1, 1, 1, 0)], lag_receiver: false, b_absent: false },
+                Flow { proto: 2, a_is_client: false, a_to_b: vec![chunk(2, 0, 0, 7)], b_to_a: vec![], lag_receiver: false, b_absent: false },
             ],
         });
     }
